@@ -169,7 +169,24 @@ func cmdCheck(args []string) int {
 			if os.Getenv("GOVC_NO_SUPPORT") == "1" {
 				continue
 			}
-			for _, ck := range sortedKeys(r.calleeKeys) {
+			// function values of a closed-world function type: every function that implements the type may be the one
+			// called, and the type's contract is what the caller assumed about it
+			cands := sortedKeys(r.calleeKeys)
+			for ft := range r.closedWorld {
+				for _, fk := range sortedKeys(eng.funcs) {
+					if !strings.HasPrefix(fk, pkgNameOf[r]+":") {
+						continue
+					}
+					if fc := eng.contractFor(eng.funcs[fk]); fc != nil {
+						for _, im := range fc.Implements {
+							if im == ft {
+								cands = append(cands, fk)
+							}
+						}
+					}
+				}
+			}
+			for _, ck := range cands {
 				f, ok := eng.funcs[ck]
 				if !ok || selected[ck] {
 					continue
